@@ -169,11 +169,16 @@ pub fn exec_main<'e>(env: E<'e>, main: impl Future<Output = ()> + 'e) -> ExecRes
     if !main_done && !env.has_violation() {
         match stop {
             Stop::Quiescent => {
-                let (waiting_subgraph, ep, in_epoch) = {
+                let (waiting_subgraph, ep, in_epoch, coupled_blocked) = {
                     let st = env.st.borrow();
-                    (st.waiting_subgraph, st.epoch, st.in_epoch)
+                    (st.waiting_subgraph, st.epoch, st.in_epoch, st.coupled_blocked)
                 };
-                if waiting_subgraph {
+                if coupled_blocked {
+                    env.viol(
+                        "sibling_leg_starved",
+                        format!("epoch {ep}: downstream 0 answered Pending and becomes ready as soon as downstream 1 is polled (coupled legs), but the pipeline returned Pending without polling downstream 1: the driver is parked forever although progress is possible"),
+                    );
+                } else if waiting_subgraph {
                     env.viol(
                         "lost_subgraph_wake",
                         format!("after epoch {ep}: futures are still queued in resolve_futures but its subgraph waker was never woken and no wake-up is outstanding: no further tick would ever deliver them"),
